@@ -422,52 +422,72 @@ type ProbeSession struct {
 	n     int
 }
 
-func (s *ProbeSession) op(name string, p packet.Generic) error {
+// op counts the operation and decides whether it fails. A failing operation is
+// recorded at once; a successful one is recorded by done() after the inner
+// session has executed it, so that the history shows the operations in the
+// order in which they took effect (a goroutine may be parked at the inner
+// session's mutex while another one overtakes it).
+func (s *ProbeSession) op(name string, p packet.Generic) (func(), error) {
 	s.n++
-	e := &Ev{K: EvSess, S: name, P: p, N: s.n}
-	if s.FailN == s.n {
-		e.Err = errInjected
+	n := s.n
+	if s.FailN == n {
 		s.W.Res.Count("fault_session_op", 1)
+		s.W.ev(&Ev{K: EvSess, S: name, P: p, N: n, Err: errInjected})
+		return nil, errInjected
 	}
-	s.W.ev(e)
-	return e.Err
+	return func() { s.W.ev(&Ev{K: EvSess, S: name, P: p, N: n}) }, nil
 }
 
 func (s *ProbeSession) NextID() packet.ID { return s.Inner.NextID() }
 
 func (s *ProbeSession) SavePacket(d session.Direction, p packet.Generic) error {
-	if err := s.op(fmt.Sprintf("save/%d", d), p); err != nil {
+	done, err := s.op(fmt.Sprintf("save/%d", d), p)
+	if err != nil {
 		return err
 	}
-	return s.Inner.SavePacket(d, p)
+	err = s.Inner.SavePacket(d, p)
+	done()
+	return err
 }
 
 func (s *ProbeSession) LookupPacket(d session.Direction, id packet.ID) (packet.Generic, error) {
-	if err := s.op(fmt.Sprintf("lookup/%d/%d", d, id), nil); err != nil {
+	done, err := s.op(fmt.Sprintf("lookup/%d/%d", d, id), nil)
+	if err != nil {
 		return nil, err
 	}
-	return s.Inner.LookupPacket(d, id)
+	p, err := s.Inner.LookupPacket(d, id)
+	done()
+	return p, err
 }
 
 func (s *ProbeSession) DeletePacket(d session.Direction, id packet.ID) error {
-	if err := s.op(fmt.Sprintf("delete/%d/%d", d, id), nil); err != nil {
+	done, err := s.op(fmt.Sprintf("delete/%d/%d", d, id), nil)
+	if err != nil {
 		return err
 	}
-	return s.Inner.DeletePacket(d, id)
+	err = s.Inner.DeletePacket(d, id)
+	done()
+	return err
 }
 
 func (s *ProbeSession) AllPackets(d session.Direction) ([]packet.Generic, error) {
-	if err := s.op(fmt.Sprintf("all/%d", d), nil); err != nil {
+	done, err := s.op(fmt.Sprintf("all/%d", d), nil)
+	if err != nil {
 		return nil, err
 	}
-	return s.Inner.AllPackets(d)
+	l, err := s.Inner.AllPackets(d)
+	done()
+	return l, err
 }
 
 func (s *ProbeSession) Reset() error {
-	if err := s.op("reset", nil); err != nil {
+	done, err := s.op("reset", nil)
+	if err != nil {
 		return err
 	}
-	return s.Inner.Reset()
+	err = s.Inner.Reset()
+	done()
+	return err
 }
 
 /* ---------- stepping ---------- */
